@@ -41,6 +41,9 @@ var methodShapes = []secShape{
 	{"s1[a]|s1[b]", []scen.Sec{sec("s1", "a"), sec("s1", "b")}},
 	{"zz[a]", []scen.Sec{sec("zz", "a")}},
 	{"s1(no properties)", []scen.Sec{{Scheme: "s1", Scopes: []string{}, NoProps: true}}},
+	// scopes as identity providers write them, repeated scopes, three alternatives
+	{"s1[read:users,write.all]", []scen.Sec{sec("s1", "read:users", "write.all")}},
+	{"s1[a,a]|s2[a]|s1[b]", []scen.Sec{sec("s1", "a", "a"), sec("s2", "a"), sec("s1", "b")}},
 }
 
 var ctlShapes = []secShape{
